@@ -94,12 +94,32 @@ def diff_rows(it):
     if m.get("set") == m.get("reset"):
         rows = [r_ for r_ in rows if r_[1] == r_[2]]  # one atom: rows with different values cannot occur
     # a set / reset that is a compile-time constant only ever takes that truth value
-    from gen_scalar import constant_value
-    for pos, key in ((1, "set"), (2, "reset")):
-        v = constant_value(it.decls, m[key]) if m.get(key) is not None else None
-        if v is not None:
-            rows = [r_ for r_ in rows if r_[pos] == (v > 0)]
+    # (decided by the verified normaliser: the atom's symbolic value is a constant term)
+    ex2 = [f"map (fun l => (match sden (b_univ bp_{it.id}) ds_{it.id} (l_set l) with TC z => Some z | _ => None end, "
+           f"match sden (b_univ bp_{it.id}) ds_{it.id} (l_reset l) with TC z => Some z | _ => None end)) latches_{it.id}"]
+    rc2, outs2, _ = H.coq_eval(defs, ex2, S.EXTRA, tag=f"lc{it.id}")
+    consts = re.findall(r"\(\s*(None|Some\s*\(?-?\d+\)?)\s*,\s*(None|Some\s*\(?-?\d+\)?)\s*\)", (outs2[0] or "").replace("%Z", "")) if outs2 else []
+    if consts:
+        for pos, txt in ((1, consts[0][0]), (2, consts[0][1])):
+            mm = re.search(r"-?\d+", txt)
+            if txt.startswith("Some") and mm:
+                truth = int(mm.group(0)) > 0
+                rows = [r_ for r_ in rows if r_[pos] == truth]
     return rows
+
+
+def _mentions_input(decls, e):
+    """does e depend (through named values) on an input whose value matters?  constants folded by the
+    language rules (typed literals, ints) do not count; `x || nonzero-literal` style absorptions are not
+    recognised here: only input-free expressions are reported input-free"""
+    if not isinstance(e, tuple):
+        return False
+    if e[0] == "var":
+        d = decls[e[1]]
+        if d[0] == "in":
+            return True
+        return _mentions_input(decls, d[2])
+    return any(_mentions_input(decls, x) for x in e[1:])
 
 
 def _vals(decls, env):
